@@ -120,6 +120,8 @@ func scripted(prop string) func(r *ev.Run, tier string) (int64, int64) {
 		if prop == "C01" {
 			// the exactly-once guard looks receipts and acknowledgements up by name: they must be found under exactly the written triple
 			r.Count("point_lookup_cases", c19.PointLookups(r, c07.NewHost(), "C01"))
+			// ... and a restarted chain still has them all
+			r.Count("records_checked_after_export_and_import", c19.ManyRecords(r, "C01"))
 		}
 		steps, vs := relay.ScriptedViolations(prop)
 		for _, v := range vs {
